@@ -43,7 +43,7 @@ m = {
                  "kind_free_text": "runtime monitoring: generated/hostile/fault-injected workloads executed by the real CMinx code under boundary monitors, decided by reference-model, metamorphic and differential oracles"}],
     "checks": checks,
     "not_applicable": na,
-    "notes": "All checks: ./check <ID> --tier quick|thorough, honour VERIF_SEED; exit 0 held / 1 violation / 2 inconclusive. See DESIGN.md.",
+    "notes": "All checks: ./check <ID> --tier quick|thorough, honour VERIF_SEED; exit 0 held / 1 violation / 2 inconclusive. One worker in sixteen runs its share of the cases under PYTHONOPTIMIZE (1 on odd seeds, 2 on even ones); entry-level checks send 15% of their cases through cminx.main (-o and stdout). Self-tests: selftest/run_seeded.sh (every kept seeded change must still be caught), selftest/sweep.sh <tier> <seeds> (unchanged tree must stay silent). See DESIGN.md, section 9.",
 }
 json.dump(m, open(os.path.join(HERE, "MANIFEST.json"), "w"), indent=1)
 print("MANIFEST ok:", len(checks), "checks;", len(na), "not claimed")
